@@ -24,7 +24,7 @@ CORR = "correspondence c03/signedtbb: ParSignedModel.mcb_sva_signed_tbb_Z vs har
 # cases
 # ------------------------------------------------------------------------------------------------------------------
 def int_ok(g):
-    return 2 * sum(w for _, _, w in g[1]) < 2 ** 31 - 1
+    return gen.int_domain_ok(g)
 
 
 def tcase(alg, k, ty, scale, bits, g, perm=None, trace=False):
